@@ -29,9 +29,11 @@ RULE = (
     "x use_vpc x delivery (whole, byte-wise) + every single cut position of the config reply at depth <= 1; "
     "distinct_nontrivial = distinct (use_vpc, delivery, history) with at least one reconfiguration"
 )
-ENDPOINT = "cluster.abcxyz.cfg.use1.cache.amazonaws.com:11211"
+ENDPOINT = "my-cluster.abcxyz.cfg.use1.cache.amazonaws.com:11211"
 EP_HOST, EP_PORT = ENDPOINT.rsplit(":", 1)
-UNIVERSE = [(f"node{i}.abcxyz.use1.cache.amazonaws.com", f"10.0.0.{i + 1}", 11211 + (i % 3)) for i in range(5)]
+# host names as ElastiCache hands them out: cluster ids contain hyphens and digits
+UNIVERSE = [(f"{('my-cache-%d' % i) if i % 2 else ('node%d' % i)}.abcxyz.{'0001.' if i == 3 else ''}use1.cache.amazonaws.com",
+             f"10.0.0.{i + 1}", 11211 + (i % 3)) for i in range(5)]
 # a second memcached on node0's machine: same host name and IP address, another port
 UNIVERSE.insert(1, (UNIVERSE[0][0], UNIVERSE[0][1], 11299))
 # 'blip_first': the first node fails, traffic makes the client evict it, it recovers (no reconfiguration)
@@ -62,7 +64,8 @@ def corpus(n):
 class World:
     def __init__(self, L0, use_vpc, delivery, cut=None, version=9, traffic=True):
         self.traffic = traffic
-        self.tls = delivery.endswith("+tls")
+        self.tls = "+tls" in delivery
+        self.pooled = "+pooled" in delivery  # use_pooling=True: every node gets a PooledClient
         delivery = delivery.split("+")[0]
         self.net = stacks.new_net(None, servers=())
         self.use_vpc = use_vpc
@@ -81,7 +84,8 @@ class World:
         self.client = AWSElastiCacheHashClient(ENDPOINT, socket_module=self.net.module(), use_vpc=self.use_vpc,
                                                default_noreply=False, connect_timeout=1, timeout=1,
                                                retry_attempts=0, dead_timeout=600,
-                                               tls_context=self.net.tls() if self.tls else None)
+                                               tls_context=self.net.tls() if self.tls else None,
+                                               **({"use_pooling": True, "max_pool_size": 2} if self.pooled else {}))
 
     def _exchange(self, fn, cut):
         net = self.net
@@ -312,8 +316,8 @@ def run(chk):
     jobs = []
     for use_vpc in (True, False):
         for n0 in range(1, 7):
-            for delivery in ("whole", "byte", "whole+tls"):
-                if delivery.endswith("+tls") and n0 not in (2, 3):
+            for delivery in ("whole", "byte", "whole+tls", "whole+pooled"):
+                if "+" in delivery and n0 not in (2, 3):
                     continue
                 jobs.append(("bfs", use_vpc, delivery, n0, chk.tier))
         for n0 in ((1, 3) if chk.tier == "quick" else (1, 2, 3, 6)):
